@@ -7,6 +7,7 @@ integer-set oracle; every observation (IsSet on probes, OnesCount, Len, IsZero,
 Equal against every register, Next) is compared three ways.
 """
 import os
+import shutil
 import random
 import time
 
@@ -176,7 +177,7 @@ def split_out(path):
 
 def execute(histories, exe, tag):
     """Runs implementation and model on the histories. Returns (impl, model, expected, note)."""
-    d = os.path.join(BUILD, "run", "c17")
+    d = os.path.join(BUILD, "run", "c17", "p%d" % os.getpid())
     os.makedirs(d, exist_ok=True)
     cf = os.path.join(d, "cases_%s.txt" % tag)
     text, exp = render(histories)
@@ -185,7 +186,7 @@ def execute(histories, exe, tag):
     for p in (iout, mout):
         if os.path.exists(p):
             os.remove(p)
-    ov = go_overlay({"internal/tools/bitmask/zz_verif_c17_test.go": os.path.join(ROOT, "harness/c17/zz_verif_c17_test.go")}, "c17")
+    ov = go_overlay({"internal/tools/bitmask/zz_verif_c17_test.go": os.path.join(ROOT, "harness/c17/zz_verif_c17_test.go")}, "c17-%d" % os.getpid())
     rc, out, _ = go_test("./internal/tools/bitmask/", ov, "^TestVerifC17$", {"VERIF_CASES": cf, "VERIF_OUT": iout}, timeout=600)
     note = "" if rc == 0 else "go harness rc=%d: %s" % (rc, out[-1500:])
     rc2, out2, _ = run([exe, cf, mout], timeout=600)
@@ -280,6 +281,7 @@ def main(tier, seed, replay=None):
     })
     known, fixed = known_findings(PROP)
     cov["fixed_findings"] = fixed
+    shutil.rmtree(os.path.join(BUILD, "run", "c17", "p%d" % os.getpid()), ignore_errors=True)
     write_evidence(PROP, tier, seed, cov,
                    ["uint never wraps (bit indexes < 2^63)", "Go test harness observes through the exported methods only"],
                    time.time() - t0, nviol)
